@@ -199,12 +199,16 @@ def dimensions(F, S):
         non_ctor = [(f, nd) for f, nd in ws if nd is not None]
         inst = "%s::%s#single-writer" % (M, field)
         req = "%s is set only when a map is read, from the header" % field
-        good = len(non_ctor) == 1 and non_ctor[0][0].key == rmb.key
+        # the reading code is ReadMapBeginning and the private helpers it alone calls (it may have been split up)
+        from ..through import private_closure
+        reading = private_closure(F, rmb)
+        good = len(non_ctor) == 1 and non_ctor[0][0].key in reading
         if good:
             f, nd = non_ctor[0]
             rt = f.term(f.kids(nd["id"])[1])
             hv = [("var", d["n"], d["d"]) for x in f.nodes if x["k"] == "DeclStmt" for d in x.get("decls", []) if d.get("rec") == "OP2Utility::MapHeader"]
-            good = (rt[0] == "mem" and rt[2] == src) or (bool(hv) and rt == F.method_value("OP2Utility::MapHeader::" + src, hv[0]))
+            hv += [("var", p["n"], p["d"]) for p in f.params if p.get("rec") == "OP2Utility::MapHeader"]
+            good = (rt[0] == "mem" and rt[2] == src and (not hv or rt[1] in hv)) or any(rt == F.method_value("OP2Utility::MapHeader::" + src, h0) for h0 in hv)
         if good:
             out.append(ok("R-WRITESET", inst, rmb.loc(non_ctor[0][1]["id"]), rmb.qn, req, "one store, from mapHeader"))
         else:
